@@ -100,7 +100,8 @@ class ExpressionTokenTranslator(AbstractTranslator):
             if isinstance(operator, cls._COMPARE_TOKENS):
                 result = f'self._compare("{operator_code}", {result}, {right_operand})'
             elif isinstance(operator, AmpersandToken):
-                result = f'(str({result}){operator_code}str({right_operand}))'
+                result = f'(self._excel_value_to_string({result}){operator_code}' \
+                         f'self._excel_value_to_string({right_operand}))'
             elif result.startswith(cls._NORMALIZE):
                 # an operation on a percent stays normalized to 15 significant digits: 7% * 12 is 0.84
                 result = f'{cls._NORMALIZE}({result}{operator_code}{right_operand})'
